@@ -17,6 +17,7 @@ package storage
 //@   ensures def [C05,C16]: result == wn(ptw) - wbase(ptw)
 
 //@ func (*StorageCar).Put
+//@   modifies wn(sc.dataWriter), wn(sc.writer), pend(sc), nrec(sc.idx), all(byCid), all(byMh), all(byDg)
 //@   requires ri: (sc.dataWriter != nil ==> wn(sc.dataWriter) == pend(sc) && objinv(sc.dataWriter)) && (sc.dataWriter == nil && sc.writer != nil ==> wn(sc.writer) == pend(sc))
 //@   requires unlocked [C08]: held(sc.mu) == 0
 //@   let werr := call[util.LdWrite#0]
@@ -39,6 +40,7 @@ package storage
 //@   let keyc, cerr := call[cid.Cast#0]
 
 //@ func (*StorageCar).Finalize
+//@   modifies sc.closed, all(writes), all(fsize)
 //@   call[fmt.Errorf#0] assert refuses_only_a_second_finalize [C04]: sc.closed && sc.opts.WriteAsCarV1
 //@   call[fmt.Errorf#2] assert refuses_only_a_second_finalize [C04]: sc.closed && !sc.opts.WriteAsCarV1
 //@   call[store.Finalize#0] assert only_the_first_time [C04,C05]: !old(sc.closed) && !sc.opts.WriteAsCarV1
